@@ -2,16 +2,19 @@
     CZip / CMerge : the real chains `Start::multiple -> Zip` and `Start::multiple -> merge`
     CFan          : the real `End` towards SEVERAL downstream blocks (split: every branch gets
                     the complete stream) and with the `All` strategy (broadcast: every replica)
-    (`route` sends through `RoutingEnd`, which is exercised by the whole-pipeline runs of C01.) *)
+    CRoute        : the real `RoutingEnd` (route) towards one downstream block per route, all
+                    batch modes (adaptive under a mock clock), exact batch sequences *)
 From Noir Require Import Base.Elem Model.Start Model.BinaryStart Model.Fan Corr.BinCorr Corr.Canon Corr.LinkCorr.
 From Noir Require Corr.C03.
+From Noir Require Import Model.Route Corr.RouteCorr.
 From Coq Require Import NArith.
 Open Scope Z_scope.
 
 Inductive case :=
 | CZip (nl nr : nat) (dels : list del) (out : list (elem (Z * Z)))
 | CMerge (nl nr : nat) (dels : list del) (out : list (elem Z))
-| CFan (c : lcase).
+| CFan (c : lcase)
+| CRoute (c : rcase).
 
 Definition zz_eqb := pair_eqb Z.eqb Z.eqb.
 
@@ -22,6 +25,7 @@ Definition corr_ok (c : case) : bool :=
   | CMerge nl nr dels out =>
       list_eqb (elem_eqb Z.eqb) (strip_fb (run merge_machine (brun nl nr false false dels))) (strip_fb out)
   | CFan l => link_corr_ok l
+  | CRoute c => route_corr_ok c
   end.
 
 (** data delivered by one side, round by round, in delivery order (a side's round r ends
@@ -70,6 +74,7 @@ Definition prop_ok (c : case) : bool :=
                        (sort_by (fun z => z) (payloads (nth r lr []) ++ payloads (nth r rr []))))
         (seq 0 (Nat.max (length lr) (length rr)))
   | CFan l => C03.prop_ok_link l
+  | CRoute c => route_prop_ok c
   end.
 
 Definition known_class (c : case) : N := 0%N.
